@@ -92,8 +92,8 @@ Qed.
 Theorem set_val_floats_saturate_any f r vs : 1 <= nw f <= 52 -> 0 <= nf f <= 60 -> Forall dbl vs ->
   set_val_real f r Saturate false (AF64 (map (fun v => Fin (dm v) (de v)) vs)) VFloat = Ok (spec_wres f r Saturate vs).
 Proof.
-  intros Hw Hf Hvs. unfold set_val_real.
-  set (io := obj_path f false (AF64 (map (fun v => Fin (dm v) (de v)) vs))).
+  intros Hw Hf Hvs. unfold set_val_real. rewrite exact_factor_AF64.
+  set (io := obj_path f false (AF64 (map (fun v => Fin (dm v) (de v)) vs)) VFloat).
   assert (Hvals: (if io then Ok (arr_nums (AF64 (map (fun v => Fin (dm v) (de v)) vs)))
                   else astype_vd (AF64 (map (fun v => Fin (dm v) (de v)) vs)) VFloat)
                  = Ok (map (fun v => NF (Fin (dm v) (de v))) vs)).
